@@ -99,6 +99,10 @@ def pool():
     add('xta-unterminated-comment', 'poison', entry='xta-buffer', builder='document', input=XTA + '/* the end is missing')
     add('xta-unterminated-comment-FILE', 'poison', entry='xta-file', builder='document', input=XTA + '/* the end is missing')
     add('part-unterminated-comment', 'poison', entry='part', part=12, builder='expression', base=MODEL, input='i + /* 1')
+    add('pretty-unterminated-comment-xta', 'poison', entry='xta-buffer', builder='pretty', input=XTA + '/* the end is missing')
+    add('pretty-unterminated-comment-xml', 'poison', entry='xml-buffer', builder='pretty', input=xml_with(guard='y &gt;= 1 /* open'))
+    add('pretty-unterminated-comment-part', 'poison', entry='part', part=12, builder='pretty', input='i + /* 1')
+    add('pretty-unterminated-comment-declaration-part', 'poison', entry='part', part=1, builder='pretty', input='int q = 1; /* never closed')
     add('pretty-on-syntax-error', 'poison', entry='xta-buffer', builder='pretty', input=XTA.replace('guard y >= 1;', 'guard y >= ;'))
     add('pretty-on-xml-syntax-error', 'poison', entry='xml-buffer', builder='pretty', input=xml_with(guard='y &gt;= ( 1'))
     add('xml-structural-error', 'poison', entry='xml-buffer', builder='document', input=MODEL.replace('<init ref="id0"/>', '<init ref="id0">'))
